@@ -263,23 +263,35 @@ class Body:
             for a in range(1, self.argc + 1):
                 d[a].append(("arg", a))
             # blocks duplicated by jump threading (analysis/inline.py) repeat definitions verbatim: a copy of a
-            # definition is the same definition, not a second one
-            for l, ds in d.items():
-                if len(ds) < 2:
-                    continue
-                keep = []
-                seen = []
-                for x in sorted(ds, key=lambda x: (bool(self.blocks[x[1]].get("threaded")) if x[0] != "arg" else False)):
-                    if x[0] in ("assign", "call") and self.blocks[x[1]].get("threaded"):
-                        sig = json.dumps(x[3] if x[0] == "assign" else {"c": x[2]["callee"]["path"], "a": x[2]["args"]}, sort_keys=True)
-                        if sig in seen:
+            # definition is the same definition, not a second one (keep the live one; the original may have become
+            # unreachable when every path was specialised)
+            if any(b.get("threaded") for b in self.blocks):
+                live = self.live_blocks()
+                for l, ds in d.items():
+                    if len(ds) < 2:
+                        continue
+                    groups = {}
+                    order = []
+                    for x in ds:
+                        if x[0] == "arg":
+                            sig = ("arg",)
+                        elif x[0] == "assign":
+                            sig = ("a", json.dumps(x[3], sort_keys=True))
+                        else:
+                            sig = ("c", json.dumps({"c": x[2]["callee"]["path"], "a": x[2]["args"]}, sort_keys=True))
+                        if sig not in groups:
+                            groups[sig] = []
+                            order.append(sig)
+                        groups[sig].append(x)
+                    keep = []
+                    for sig in order:
+                        g = groups[sig]
+                        if len(g) == 1 or not any(x[0] != "arg" and self.blocks[x[1]].get("threaded") for x in g):
+                            keep.extend(g)
                             continue
-                    if x[0] == "assign":
-                        seen.append(json.dumps(x[3], sort_keys=True))
-                    elif x[0] == "call":
-                        seen.append(json.dumps({"c": x[2]["callee"]["path"], "a": x[2]["args"]}, sort_keys=True))
-                    keep.append(x)
-                d[l] = keep
+                        g.sort(key=lambda x: (x[1] not in live, bool(self.blocks[x[1]].get("threaded"))))
+                        keep.append(g[0])
+                    d[l] = keep
             self._defs = d
         return self._defs.get(local, [])
 
